@@ -1,15 +1,15 @@
 SPECIFICATION MCSpec
 CONSTANTS
-  Runs = {"A"}
+  Runs = {"A", "B"}
   Mode = "mc"
   Faithful = {"F8"}
   Tabs <- MCTabs
-  MaxVal = 4
+  MaxVal = 3
   MaxRho = 3
   MaxIter = 2
   MaxK = 2
   MaxF = 1
-  CfgSpace <- ObserverCfgs
+  CfgSpace <- QTwinStopCfgs
 CONSTRAINT Bound
 CHECK_DEADLOCK FALSE
 INVARIANT TypeOK
@@ -28,4 +28,6 @@ INVARIANT C16_RhoMonotoneHist
 INVARIANT C16_ConstantUnchanged
 INVARIANT C18_Antichain
 INVARIANT C08_NoLeak
-PROPERTY C09_ObserverStutter
+INVARIANT Twin_Prefix
+INVARIANT Twin_SameEnd
+INVARIANT C08_StopsAsLimit
